@@ -9,7 +9,7 @@ import (
 	"time"
 
 	"github.com/mimecast/dtail/verif/core"
-	_ "github.com/mimecast/dtail/verif/nharness"
+	"github.com/mimecast/dtail/verif/nharness"
 )
 
 func main() {
@@ -28,6 +28,10 @@ func main() {
 		code = core.WorkerMain(os.Args[2], os.Args[3], shard, n, time.Unix(0, dl))
 	case "replay":
 		code = core.ReplayMain(os.Args[2])
+	case "serve":
+		// a dtail server in a process of its own (its configuration is then really separate from the client's)
+		m, _ := strconv.Atoi(os.Args[2])
+		code = nharness.ServeMain(m, os.Args[3])
 	}
 	core.CleanupScratch()
 	os.Exit(code)
